@@ -3,6 +3,11 @@ CONSTANTS
   Ids = {0, 1, 2}
   Channels = {"org", "user"}
   MaxHops = 4
+  InProc = TRUE
+  WireHops = FALSE
+  HTTPRefused = {}
+  GRPCRefused = {}
+  HTTPTrim <- NoTrim
 INIT Init
 NEXT Next
 INVARIANTS TypeOK Unchanged NeverDefaulted SingleValueWritten RefusalHasReason EmitPath
